@@ -163,6 +163,67 @@ def _run_inputs_case(h, test_state, mac_label, text, redacted, foreign, shape_id
                             {'part': 'inputs', 'case': case}))
 
 
+def part_levels(tier):
+  """Every level x every CLI verbosity: what is printed is the CLI handler's business, what is *recorded* is everything.
+  Also: records are appended in emission order even if the wall clock steps backwards between two messages."""
+  L = progs.lib()
+  h = L['htf']
+  from openhtf.util import logs  # pylint: disable=g-import-not-at-top
+  viols, n = [], 0
+  htf_logger = logging.getLogger('openhtf')
+  levels = [logging.DEBUG, 15, logging.INFO, logging.WARNING, logging.ERROR]
+  for verbosity in (0, 1, 2):
+    for clock in ('normal', 'steps-back'):
+      saved = (logs.CLI_LOGGING_VERBOSITY, list(htf_logger.handlers), htf_logger.level, logging.time)
+      shim = None
+      try:
+        logs.CLI_LOGGING_VERBOSITY = verbosity
+        # (configure_logging is decorated call_once: a process configures logging once; here each case is "a process")
+        getattr(logs.configure_logging, '__wrapped__', logs.configure_logging)()
+        if clock == 'steps-back':
+          import types  # pylint: disable=g-import-not-at-top
+          import time as real_time  # pylint: disable=g-import-not-at-top
+          state = {'off': 0.0}
+          shim = types.SimpleNamespace(**{k: getattr(real_time, k) for k in dir(real_time) if not k.startswith('_')})
+          shim.time = lambda: real_time.time() + state['off']
+          if hasattr(real_time, 'time_ns'):
+            shim.time_ns = lambda: int((real_time.time() + state['off']) * 1e9)
+          logging.time = shim
+
+        def body(test):
+          fw = logging.getLogger('openhtf.core.levels')
+          for i, lv in enumerate(levels):
+            if shim is not None:
+              state['off'] = [0.0, -2.0, 2.0, -4.0, 1.0][i]     # an NTP correction between two log lines
+            test.logger.log(lv, 'own-%d', lv)
+            fw.log(lv, 'fw-%d', lv)
+
+        body.__name__ = 'levels'
+        test = h.Test(h.PhaseOptions(name='levels')(body))
+        cap = htf.Capture()
+        test.add_output_callbacks(cap)
+        test.execute()
+        rec = cap.records[0]
+        got = [(r.level, r.message) for r in rec.log_records if r.message.startswith(('own-', 'fw-'))]
+        want = [x for lv in levels for x in ((lv, 'own-%d' % lv), (lv, 'fw-%d' % lv))]
+        n += 1
+        case = {'verbosity': verbosity, 'clock': clock}
+        if sorted(got) != sorted(want):
+          missing = [w for w in want if w not in got]
+          viols.append(('levels:lost-or-extra:verbosity=%d' % verbosity,
+                        'CLI verbosity %d, clock %s: recorded %r; missing %r' % (verbosity, clock, got, missing),
+                        {'part': 'levels', 'case': case}))
+        elif got != want:
+          viols.append(('levels:order:%s' % clock, 'CLI verbosity %d, clock %s: records are not in emission order: %r'
+                        % (verbosity, clock, [m for _, m in got]), {'part': 'levels', 'case': case}))
+      finally:
+        logs.CLI_LOGGING_VERBOSITY = saved[0]
+        htf_logger.handlers[:] = saved[1]
+        htf_logger.setLevel(saved[2])
+        logging.time = saved[3]
+  return n, n, viols, [{'levels': levels, 'verbosities': [0, 1, 2], 'clocks': ['normal', 'steps-back']}]
+
+
 def part_histories(tier):
   L = progs.lib()
   h = L['htf']
@@ -346,10 +407,17 @@ def _hist_worker(tier):
   return part_histories(tier)
 
 
+def _levels_worker(tier):
+  return part_levels(tier)
+
+
 def run(tier):
   rep = common.Report(PID, tier, 'model_checking')
   progs.lib()
-  (n1, d1, v1, s1), (n2, d2, v2, s2) = common.pmap(lambda f: f(tier), [_inputs_worker, _hist_worker], chunksize=1)
+  (n1, d1, v1, s1), (n2, d2, v2, s2), (n3, d3, v3, s3) = common.pmap(lambda f: f(tier), [_inputs_worker, _hist_worker, _levels_worker], chunksize=1)
+  rep.merge_violations(v3)
+  rep.add_part('levels x verbosity x clock', evaluations=n3, distinct_nontrivial=d3, states=n3, transitions=n3,
+               traces_validated_against_impl=n3, exhaustive=True, samples=s3 or [{}])
   rep.merge_violations(v1)
   rep.add_part('inputs', evaluations=n1, distinct_nontrivial=d1, states=n1, transitions=n1, traces_validated_against_impl=n1,
                exhaustive=True, samples=s1 or [{}])
